@@ -226,15 +226,25 @@ pub fn worker_main(check: &mut dyn CheckImpl, args: &[String]) -> ! {
     let to: u64 = args[3].parse().unwrap();
     let stride: u64 = args[4].parse().unwrap();
     crash_open(&args[5]);
+    // optional 7th argument `list=u1,u2,...`: run exactly these units in this order (HISTORY oracle)
+    let list: Option<Vec<u64>> = args
+        .get(6)
+        .and_then(|a| a.strip_prefix("list="))
+        .map(|l| l.split(',').filter_map(|x| x.parse().ok()).collect());
     // the cap is C18's fault seam (hostile length fields); C12's wide shapes legitimately build keys of
     // a few hundred MiB
     alloc::CAP.store(if check.id() == "C18" { 64 << 20 } else { 1 << 30 }, Ordering::SeqCst);
     crate::util::install_quiet_panic_hook();
     let stdout = std::io::stdout();
     let mut acc = Acc::default();
+    let units: Vec<u64> = match list {
+        Some(l) => l,
+        None => (from..to).step_by(stride.max(1) as usize).collect(),
+    };
     let mut u = from;
     let mut since = 0;
-    while u < to {
+    for unit in units {
+        u = unit;
         let mut viols = Vec::new();
         alloc::CURRENT_RUN.store(u, Ordering::Relaxed);
         let t_unit = Instant::now();
@@ -264,10 +274,9 @@ pub fn worker_main(check: &mut dyn CheckImpl, args: &[String]) -> ! {
             writeln!(o, "{}", json!({"t":"progress","next": u + stride, "acc": acc.to_json()})).unwrap();
         }
         o.flush().unwrap();
-        u += stride;
     }
     let mut o = stdout.lock();
-    writeln!(o, "{}", json!({"t":"done","next": u, "acc": acc.to_json()})).unwrap();
+    writeln!(o, "{}", json!({"t":"done","next": u + stride, "acc": acc.to_json()})).unwrap();
     o.flush().unwrap();
     std::process::exit(0);
 }
@@ -301,6 +310,30 @@ fn parse_viol(v: &Value) -> Viol {
 }
 
 fn run_worker(prop: &str, tier: Tier, seed: u64, from: u64, to: u64, stride: u64, crashfile: &str, timeout_s: u64) -> WorkerOutcome {
+    run_worker_ex(prop, tier, seed, from, to, stride, crashfile, timeout_s, None)
+}
+
+/// Hash of unit `u` after the units of `list` (which ends with `u`) ran in this order in one fresh process.
+fn unit_hash_after(prop: &str, tier: Tier, seed: u64, list: &[u64], u: u64) -> Option<u64> {
+    let dir = format!("{}/target/run/{}", verif_root(), prop);
+    let _ = std::fs::create_dir_all(&dir);
+    let l = list.iter().map(|x| x.to_string()).collect::<Vec<_>>().join(",");
+    let o = run_worker_ex(prop, tier, seed, 0, 0, 1, &format!("{dir}/crash-hist-{}.json", std::process::id()), 900, Some(l));
+    o.acc.unit_hashes.get(&u).copied()
+}
+
+#[allow(clippy::too_many_arguments)]
+fn run_worker_ex(
+    prop: &str,
+    tier: Tier,
+    seed: u64,
+    from: u64,
+    to: u64,
+    stride: u64,
+    crashfile: &str,
+    timeout_s: u64,
+    list: Option<String>,
+) -> WorkerOutcome {
     let _ = std::fs::remove_file(crashfile);
     // no unit of any check takes more than a few seconds; ten minutes without a finished unit is a stall
     let stall_s: u64 = std::env::var("VERIF_STALL_S").ok().and_then(|s| s.parse().ok()).unwrap_or(600);
@@ -315,6 +348,7 @@ fn run_worker(prop: &str, tier: Tier, seed: u64, from: u64, to: u64, stride: u64
             &stride.to_string(),
             crashfile,
         ])
+        .args(list.iter().map(|l| format!("list={l}")))
         // scenarios spawn many short-lived threads: without a cap glibc keeps one malloc arena per thread
         // and never returns their free memory (a thorough run grew to 4 GiB per worker and was OOM-killed)
         .env("MALLOC_ARENA_MAX", "2")
@@ -557,18 +591,109 @@ pub fn check_main(check: &mut dyn CheckImpl, tier: Tier) -> ! {
     let det_units = check.units(tier, seed).min(std::env::var("VERIF_DET_UNITS").ok().and_then(|s| s.parse().ok()).unwrap_or(32));
     let mut det_checked = 0u64;
     let mut det_mismatch: Option<String> = None;
+    let mut first_mismatch: Option<(u64, u64, u64)> = None; // (unit, hash in the re-run, hash in the main run)
+    // several segments of consecutive units, each in a process of its own (4 in the quick tier, 16 in the thorough one)
+    let segments: u64 = if std::env::var("VERIF_DET_UNITS").is_ok() {
+        1
+    } else {
+        match tier {
+            Tier::Quick => 4,
+            Tier::Thorough => 16,
+        }
+    };
+    let total_units = check.units(tier, seed);
+    let mut rerun_hashes: BTreeMap<u64, u64> = BTreeMap::new();
     if det_units > 0 {
         let dir = format!("{}/target/run/{}", verif_root(), prop);
-        let o = run_worker(prop, tier, seed, 0, det_units, 1, &format!("{dir}/crash-det.json"), 900);
-        for (u, h) in &o.acc.unit_hashes {
+        let handles: Vec<_> = (0..segments)
+            .filter(|k| k * det_units < total_units)
+            .map(|k| {
+                let (prop, dir) = (prop.to_string(), dir.clone());
+                let (a, b) = (k * det_units, ((k + 1) * det_units).min(total_units));
+                std::thread::spawn(move || run_worker(&prop, tier, seed, a, b, 1, &format!("{dir}/crash-det-{k}.json"), 900).acc.unit_hashes)
+            })
+            .collect();
+        for h in handles {
+            rerun_hashes.extend(h.join().unwrap());
+        }
+    }
+    {
+        for (u, h) in &rerun_hashes {
             match res.acc.unit_hashes.get(u) {
                 Some(h2) if h2 == h => det_checked += 1,
                 Some(h2) => {
                     det_mismatch.get_or_insert(format!(
                         "nondeterminism: unit {u} of {prop} hashed {h:016x} in the re-run and {h2:016x} in the main run"
                     ));
+                    if first_mismatch.is_none_or(|m| *u < m.0) {
+                        first_mismatch = Some((*u, *h, *h2));
+                    }
                 }
                 None => {}
+            }
+        }
+    }
+
+    // HISTORY oracle: a unit whose result differs between two processes although it is reproducible when it runs
+    // alone depends on what the process did before it (a cache, a static, a thread_local keyed too coarsely in the
+    // code under test). The history is replayed in a fresh process and shrunk.
+    if let Some((u, h_rerun, h_main)) = first_mismatch {
+        let alone = unit_hash_after(prop, tier, seed, &[u], u);
+        if alone.is_some() && alone == unit_hash_after(prop, tier, seed, &[u], u) {
+            let alone = alone.unwrap();
+            let w = workers.min(check.units(tier, seed).max(1));
+            let hist: Option<Vec<u64>> = if h_rerun != alone {
+                Some((u / det_units.max(1) * det_units.max(1)..u).collect())
+            } else if h_main != alone {
+                Some((u % w..u).step_by(w as usize).collect())
+            } else {
+                None
+            };
+            if let Some(mut hist) = hist {
+                let differs = |h: &[u64]| -> bool {
+                    let mut l = h.to_vec();
+                    l.push(u);
+                    unit_hash_after(prop, tier, seed, &l, u).is_some_and(|x| x != alone)
+                };
+                if differs(&hist) {
+                    // ddmin over the predecessors, bounded
+                    let mut chunk = hist.len().div_ceil(2).max(1);
+                    let mut trials = 0;
+                    while chunk >= 1 && hist.len() > 1 && trials < 48 {
+                        let mut shrunk = false;
+                        let mut i = 0;
+                        while i < hist.len() && trials < 48 {
+                            let mut cand = hist.clone();
+                            cand.drain(i..(i + chunk).min(cand.len()));
+                            trials += 1;
+                            if !cand.is_empty() && differs(&cand) {
+                                hist = cand;
+                                shrunk = true;
+                            } else {
+                                i += chunk;
+                            }
+                        }
+                        if !shrunk {
+                            if chunk == 1 {
+                                break;
+                            }
+                            chunk = chunk.div_ceil(2);
+                        }
+                    }
+                    let mut units = hist.clone();
+                    units.push(u);
+                    res.viols.push(Viol {
+                        unit: u,
+                        oracle: "HISTORY".into(),
+                        class: "result_depends_on_process_history".into(),
+                        subject: "process_state".into(),
+                        detail: format!(
+                            "unit {u} gives other results (event-log hash) after units {hist:?} ran in the same process than in a process of its own: state kept by the code under test between calls leaks into later results"
+                        ),
+                        replay: json!({"engine": "history", "tier": tier.name(), "units": units}),
+                    });
+                    det_mismatch = None;
+                }
             }
         }
     }
@@ -710,6 +835,25 @@ pub fn replay_main(checks: &mut [Box<dyn CheckImpl>], file: &str) -> ! {
     let Some(c) = checks.iter_mut().find(|c| c.id() == prop) else {
         harness_error(&format!("no check for property {prop}"));
     };
+    if v["replay"]["engine"].as_str() == Some("history") {
+        let seed = v["seed"].as_u64().unwrap_or(DEFAULT_SEED);
+        let tier = Tier::parse(v["replay"]["tier"].as_str().unwrap_or("quick"));
+        let units: Vec<u64> = v["replay"]["units"].as_array().map(|a| a.iter().filter_map(|x| x.as_u64()).collect()).unwrap_or_default();
+        let Some(&u) = units.last() else { harness_error("history replay without units") };
+        let alone = unit_hash_after(prop, tier, seed, &[u], u);
+        let after = unit_hash_after(prop, tier, seed, &units, u);
+        if alone.is_some() && after.is_some() && alone != after {
+            println!(
+                "REPRODUCED oracle=HISTORY class=result_depends_on_process_history: unit {u} hashes {:016x} alone and {:016x} after units {:?}",
+                alone.unwrap(),
+                after.unwrap(),
+                &units[..units.len() - 1]
+            );
+            std::process::exit(1);
+        }
+        println!("NOT-REPRODUCED: unit {u} hashes the same alone and after its recorded history");
+        std::process::exit(0);
+    }
     alloc::CAP.store(if prop == "C18" { 64 << 20 } else { 1 << 30 }, Ordering::SeqCst);
     crate::util::install_quiet_panic_hook();
     // crash attribution for aborting replays
